@@ -106,6 +106,14 @@ func genVersions(r *vlib.Rand, dir string, envPrefix string) []secVer {
 			v.HasUntil = true
 			v.Until = v.From.Add(vlib.Pick(r, []time.Duration{time.Second, time.Hour, 2 * time.Hour, 3 * time.Hour, 96 * time.Hour}))
 		}
+		// window bounds inside a second (the language takes RFC 3339 with fractions)
+		fracs := []time.Duration{time.Nanosecond, 250 * time.Millisecond, 500 * time.Millisecond, 999999999 * time.Nanosecond}
+		if r.Chance(0.3) {
+			v.From = v.From.Add(vlib.Pick(r, fracs))
+		}
+		if v.HasUntil && r.Chance(0.3) {
+			v.Until = v.Until.Add(vlib.Pick(r, fracs))
+		}
 		val := fmt.Sprintf("secret-%s-%x", v.ID, r.U64())
 		switch r.Intn(10) {
 		case 0:
@@ -134,8 +142,14 @@ func boundaryInstants(vs []secVer) []time.Time {
 	ts := []time.Time{c17T0.Add(-1000 * time.Hour), c17T0.Add(1000 * time.Hour), c17T0}
 	for _, v := range vs {
 		ts = append(ts, v.From.Add(-time.Second), v.From, v.From.Add(time.Second), v.From.Add(500*time.Millisecond), v.From.Add(-time.Nanosecond))
+		if t := v.From.Truncate(time.Second); !t.Equal(v.From) {
+			ts = append(ts, t, t.Add(time.Second))
+		}
 		if v.HasUntil {
 			ts = append(ts, v.Until.Add(-time.Second), v.Until, v.Until.Add(time.Second), v.Until.Add(-time.Nanosecond))
+			if t := v.Until.Truncate(time.Second); !t.Equal(v.Until) {
+				ts = append(ts, t, t.Add(time.Second))
+			}
 		}
 	}
 	return ts
@@ -145,9 +159,9 @@ func secretsBlock(vs []secVer) string {
 	var b strings.Builder
 	b.WriteString("secrets {\n")
 	for _, v := range vs {
-		fmt.Fprintf(&b, " secret %q {\n  value %s\n  valid_from %q\n", v.ID, l2.Quote(v.Ref), v.From.Format(time.RFC3339))
+		fmt.Fprintf(&b, " secret %q {\n  value %s\n  valid_from %q\n", v.ID, l2.Quote(v.Ref), v.From.Format(time.RFC3339Nano))
 		if v.HasUntil {
-			fmt.Fprintf(&b, "  valid_until %q\n", v.Until.Format(time.RFC3339))
+			fmt.Fprintf(&b, "  valid_until %q\n", v.Until.Format(time.RFC3339Nano))
 		}
 		b.WriteString(" }\n")
 	}
@@ -413,7 +427,7 @@ func signerClass(id string) string {
 
 // C17: HMAC signing and secret rotation windows.
 func C17(c *vlib.Ctx) {
-	c.Rule("outbound: generated secret-version sets (1-5 versions, overlapping/adjacent/identical windows, raw/env/file refs incl. unloadable ones), both selection modes and inline secrets, custom header names, compiled by config.Compile and mapped as `run` does; the real HTTPDeliverer (injected Now at valid_from/valid_until -1s/0/+1s/-1ns and far outside) posts to a local server and the signature is recomputed over the request as received (method, path from the request line, body bytes read) with the independently selected version; no valid/loadable version => zero requests. inbound: the production loadAuth wiring with tolerance 2000000h, requests signed with every version/unknown/inline secret at the window boundaries. distinct_nontrivial = distinct (path class, selection mode, version count, inline) and (signer class, validity, status) classes.")
+	c.Rule("outbound: generated secret-version sets (1-5 versions, overlapping/adjacent/identical windows, bounds with fractional seconds, raw/env/file refs incl. unloadable ones), both selection modes and inline secrets, custom header names, compiled by config.Compile and mapped as `run` does; the real HTTPDeliverer (injected Now at valid_from/valid_until -1s/0/+1s/-1ns and far outside) posts to a local server and the signature is recomputed over the request as received (method, path from the request line, body bytes read) with the independently selected version; no valid/loadable version => zero requests. inbound: the production loadAuth wiring with tolerance 2000000h, requests signed with every version/unknown/inline secret at the window boundaries. distinct_nontrivial = distinct (path class, selection mode, version count, inline) and (signer class, validity, status) classes.")
 	c.Assume("exact valid_from ties are broken by the smallest id (the ordering secrets.Set.ValidAt documents; the statement only says 'ties by id')")
 	c17Outbound(c)
 	c17Inbound(c)
